@@ -24,6 +24,8 @@ pub open spec fn list_insert(l: Seq<Node>, n: Node, asc: bool) -> Seq<Node> {
 pub open spec fn cmp_is<F: Fn(u32, u32) -> bool>(check: F, asc: bool) -> bool {
   forall|a: u32, b: u32, res: bool| #[trigger] check.ensures((a, b), res) ==> res == chk(asc, a, b)
 }
+/// trigger helper for the comparator-polymorphic postconditions below
+pub open spec fn tr(asc: bool) -> bool { true }
 /// find_position: returns the cell (and its word) after which a node of size `val` belongs
 pub open spec fn fp_post(s: SV, val: u32, asc: bool, r: (u64, CellRef)) -> bool {
   r.1 == cell_of(s.list, first_idx(s.list, val, asc) - 1) && r.0 == word(s, r.1)
@@ -36,4 +38,63 @@ pub open spec fn fpn_post(s: SV, val: u32, asc: bool, r: Option<((u64, CellRef),
     Some(p) => 0 <= i < s.list.len() && p.0.1 == cell_of(s.list, i - 1) && p.1.1 == cell_of(s.list, i)
       && p.0.0 == word(s, p.0.1) && p.1.0 == word(s, p.1.1),
   }
+}
+
+// ---- slow path (allocation from the free list) -----------------------------------------------------------------
+
+/// C10: which segment serves a request of `size` bytes (l.len() = none)
+///  - Optimistic: the head, i.e. the largest segment; fails iff the largest is too small
+///  - Pessimistic: the first (= smallest, list is ascending) segment that fits; fails iff none fits
+pub open spec fn pick(l: Seq<Node>, size: u32, f: Freelist) -> int {
+  match f {
+    Freelist::Pessimistic => first_idx(l, size, true),
+    Freelist::Optimistic => if l.len() > 0 && size <= l[0].1 { 0 } else { l.len() as int },
+    Freelist::None => l.len() as int,
+  }
+}
+
+/// `pick` is the documented policy, given the order invariant
+pub proof fn lemma_pick_policy(a: AV, s: SV, size: u32)
+  requires wf_order(a, s)
+  ensures ({
+    let l = s.list; let k = pick(l, size, a.freelist);
+    &&& 0 <= k <= l.len()
+    &&& (k == l.len() <==> forall|j: int| 0 <= j < l.len() ==> (#[trigger] l[j]).1 < size)                 // fails iff nothing fits
+    &&& (k < l.len() ==> l[k].1 >= size)
+    &&& (k < l.len() && a.freelist == Freelist::Optimistic ==> forall|j: int| 0 <= j < l.len() ==> (#[trigger] l[j]).1 <= l[k].1)   // largest
+    &&& (k < l.len() && a.freelist == Freelist::Pessimistic ==> forall|j: int| 0 <= j < l.len() && (#[trigger] l[j]).1 >= size ==> l[j].1 >= l[k].1) // smallest that fits
+  })
+{
+  let l = s.list;
+  match a.freelist {
+    Freelist::Pessimistic => {
+      lemma_first_idx_props_from(l, size, true, 0);
+      let k = first_idx(l, size, true);
+      if k < l.len() {
+        assert forall|j: int| 0 <= j < l.len() && (#[trigger] l[j]).1 >= size implies l[j].1 >= l[k].1 by {
+          if j < k { assert(!chk(true, size, l[j].1)); } else { assert(l[k].1 <= l[j].1); }
+        }
+      } else {
+        assert forall|j: int| 0 <= j < l.len() implies (#[trigger] l[j]).1 < size by { assert(!chk(true, size, l[j].1)); }
+      }
+    },
+    Freelist::Optimistic => {
+      if l.len() > 0 {
+        assert forall|j: int| 0 <= j < l.len() implies (#[trigger] l[j]).1 <= l[0].1 by { assert(l[0].1 >= l[j].1); }
+      }
+    },
+    Freelist::None => {},
+  }
+}
+
+/// abstract result of serving `size` bytes from segment k of the list (state s0 -> s1, returned region m)
+pub open spec fn slow_ok(a: AV, s0: SV, s1: SV, size: u32, k: int, mo: int, ms: int, po: int, ps: int) -> bool {
+  let l = s0.list; let n = l[k];
+  let de = n.0 as int + 8 + size as int; let rem = n.1 as int - size as int;
+  let split = seg_valid(s0, de, rem);
+  &&& mo == n.0 as int && po == n.0 as int + 8 && ps == size as int
+  &&& ms == (if split { size as int } else { n.1 as int })
+  &&& s1.list == (if split { list_insert(l.remove(k), seg_node(de, rem), asc_of(a.freelist)) } else { l.remove(k) })
+  &&& s1.discarded == s0.discarded + (if split { 8int } else { 0int })
+  &&& s1.allocated == s0.allocated && s1.min_seg == s0.min_seg && s1.writable == s0.writable && s1.lo == s0.lo
 }
